@@ -23,7 +23,27 @@ def windows(tier, seed):
     short = [w for w in ws if span(w) <= 460]
     longw = [w for w in ws if span(w) > 460]
     mc = short[: int(n_mc * 0.8)] + longw[: n_mc - int(n_mc * 0.8)]
-    rep = short[: n_rep - n_rep // 8] + longw[: n_rep // 8]
+    # replay sample stratified over (start relative to planting, season count class, off-season, harvest kind)
+    def klass(w):
+        s, p = dt.date(*w["start"]), dt.date(w["start"][0], *w["plant"])
+        rel = (s - p).days
+        if rel < -300:
+            rel = (s - dt.date(w["start"][0] - 1, *w["plant"])).days
+        relc = "before" if rel < 0 and rel > -100 else "far_before" if rel <= -100 else "at" if rel == 0 else "after"
+        return (relc, min(span(w) // 300, 3), w["off"], w["harv"] is None)
+    groups = {}
+    for w in ws:
+        groups.setdefault(klass(w), []).append(w)
+    rep = []
+    keys = sorted(groups, key=str)
+    i = 0
+    while len(rep) < n_rep and any(groups[k] for k in keys):
+        k = keys[i % len(keys)]
+        if groups[k]:
+            cand = groups[k].pop(0)
+            if span(cand) <= 1200:
+                rep.append(cand)
+        i += 1
     return mc, rep
 
 
@@ -37,6 +57,8 @@ def numeric(tier, seed):
         S("Barley", "Clay", seed=seed + 4, plant_md=(12, 20), year=2000, seasons=2, harvest_date="03/10"),                  # New-Year wrap, binding harvest
         S("Tef", "Loam", seed=seed + 5, lead=40, off_season=True, seasons=3, tail=10),
         S("Potato", "SiltLoam", seed=seed + 6, plant_md=(2, 28), year=2003, seasons=2),
+        S("Sorghum", "Loam", seed=seed + 7, lead=37, seasons=3),                       # start before planting, jumps between seasons
+        S("BarleyGDD", "SandyLoam", seed=seed + 8, lead=5, seasons=2, regime="warm"),
     ]
     if tier == "thorough":
         for i in range(60):
